@@ -1,6 +1,7 @@
 import DepsDev.Proofs.C02NuGet
 import DepsDev.Proofs.C02Gem
 import DepsDev.Proofs.C02Pep
+import DepsDev.Proofs.C02MvnDirect
 
 /-!
 # C02 — version ordering agrees with each ecosystem's own implementation
@@ -22,7 +23,7 @@ with `WF` = "both the reference and the library accept the version". What is pro
 | NPM, Cargo, Go | `SemVerAgrees s` | refuted (`semver_agree_false_bigpre`, `…_negident`); `semver_agree_partial` with the two classes excluded |
 | RubyGems | `GemAgrees` | refuted (`gem_agree_false_case`); `gem_agree_partial` for versions without upper-case letters |
 | PyPI | `PepAgrees` | refuted four ways; `pypi_agree_partial` with the four classes excluded |
-| Maven | `MavenAgrees` | refuted four ways (+ a spelling-level one); no positive theorem: agreement outside the classes rests on the correspondence + oracle only |
+| Maven | `MavenAgrees` | refuted four ways (+ a spelling-level one); `maven_agree_partial`: the whole DESIGN 6.4 shape (stages S1–S4) with exactly the four classes excluded; `maven_agree_keyorder`: outside C01's `ZeroDotQual` both sides are C01's key order |
 
 The second clause of the property ("the normal form is always accepted") is
 `parse s (render a) = ok (embed a)`; it is not proved here: the driver evaluates it
@@ -30,7 +31,7 @@ structurally on every generated tree (`eq=1` in the `embed` op) — a test, labe
 -/
 namespace DepsDev.Props.C02
 
-open Std DepsDev DepsDev.Semver DepsDev.Ref DepsDev.Proofs DepsDev.Proofs.C02
+open Std DepsDev DepsDev.Semver DepsDev.Ref DepsDev.Proofs DepsDev.Proofs.C02 DepsDev.Proofs.C02Mvn
 
 /-- The first clause of C02 for one ecosystem, on a class `WF` of syntax trees. -/
 def Agrees {A : Type} (embed : A → Version) (ref : A → A → Ordering) (WF : A → Prop) : Prop :=
@@ -223,7 +224,7 @@ theorem pypi_v_epoch_rejected :
       ¬ Pep.NoVEpoch [118, 49, 33, 50, 46, 48] := by
   refine ⟨by decide +kernel, by decide +kernel, by decide⟩
 
-/-! ## Maven (no positive theorem) -/
+/-! ## Maven -/
 
 @[reducible] def MavenWF (a : MavenCV.Ast) : Prop := a.valid = true ∧ Maven.inLib a = true
 @[reducible] def Maven.NoFinalSnapshot (a : MavenCV.Ast) : Prop := Maven.finalSnapshot a = false
@@ -274,6 +275,55 @@ theorem maven_leading_zero_false :
       MavenCV.compare { nums := [1, 0] } { nums := [1, 0] } = .eq ∧ ¬ Maven.NoZeroRun [49, 46, 48, 48] := by
   refine ⟨by decide +kernel, by decide +kernel, by decide⟩
 
+/-- The domain of `maven_agree_partial`: the Maven-Central shape of DESIGN 6.4 (`Ast.valid`:
+numbers separated by dots, optionally a lower-case qualifier word attached with `.`, `-` or
+directly, optionally a number after it attached the same three ways, optionally `-SNAPSHOT`;
+no number after `ga`/`final`/`release`), numbers the library reads exactly, outside the four
+tree-level finding classes. All clauses are decidable. -/
+@[reducible] def MavenDomain (a : MavenCV.Ast) : Prop :=
+  MavenWF a ∧ Maven.NoFinalSnapshot a ∧ Maven.NoZeroSnapshot a ∧ Maven.NoDotUnknown a ∧ Maven.NoZeroDot a
+
+theorem goodAst_of_domain {a : MavenCV.Ast} (h : MavenDomain a) : GoodAst' a :=
+  ⟨h.1.1, h.2.1, h.2.2.1, h.2.2.2.1, h.2.2.2.2⟩
+
+/-- **Maven** (stages S1–S4 at once: dotted numbers of any length with their trailing zeros;
+known qualifiers incl. the aliases `ga`/`final`/`release`, `cr`, and `a`/`b`/`m` before a digit;
+a number after the qualifier; `-SNAPSHOT`; unknown qualifiers attached with `-`): on every pair
+of versions of `MavenDomain` — the DESIGN 6.4 shape outside exactly the four recorded finding
+classes — the library's comparison has the sign of `ComparableVersion.compareTo` (Maven
+3.6–3.8.6 as specified in `Ref/MavenCV.lean`). C01's `ZeroDotQual` versions (`4.1.0.Beta1`)
+are inside: there the order is no key order, but the two sides still agree step by step. -/
+theorem maven_agree_partial : Agrees embedMaven MavenCV.compare MavenDomain := by
+  intro a b ha hb
+  exact maven_agree' (goodAst_of_domain ha) (goodAst_of_domain hb)
+
+/-- Hypothesis clause of `maven_agree_keyorder`: not C01's `ZeroDotQual` — the last number is
+`0` and a qualifier other than `ga`/`final`/`release` is attached to it with a dot
+(`4.1.0.Beta1`, `2.0.alpha`; contains `Maven.NoZeroDot`). Not a disagreement class. -/
+@[reducible] def Maven.NoZeroDotQual (a : MavenCV.Ast) : Prop := Maven.zeroDotQual a = false
+
+theorem goodAst_of_domain_key {a : MavenCV.Ast} (h : MavenDomain a) (hz : Maven.NoZeroDotQual a) : GoodAst a :=
+  ⟨h.1.1, h.2.1, h.2.2.1, h.2.2.2.1, hz⟩
+
+/-- Outside `ZeroDotQual` both sides are the key order `mavenLex` of C01 (a `TransCmp`: `padLex`
+over the four-component element keys) on the library's element lists: ComparableVersion's
+comparison *is* that key order, and the library renders it. -/
+theorem maven_agree_keyorder (a b : MavenCV.Ast) (ha : MavenDomain a) (hb : MavenDomain b)
+    (za : Maven.NoZeroDotQual a) (zb : Maven.NoZeroDotQual b) :
+    MavenCV.compare a b = mavenLex (elemsOf a) (elemsOf b) ∧
+      vcompare (embedMaven a) (embedMaven b) = .ok (ordToInt (mavenLex (elemsOf a) (elemsOf b))) := by
+  have h := ref_compare (goodAst_of_domain_key ha za) (goodAst_of_domain_key hb zb)
+  exact ⟨h, h ▸ maven_agree (goodAst_of_domain_key ha za) (goodAst_of_domain_key hb zb)⟩
+
+/-- The elements of the library's version of a tree of the domain, in closed form: the first
+number, the other numbers (trailing zeros dropped when nothing or a `-` element follows), then
+the qualifier unless `ga`/`final`/`release`, its number unless `0`, and `-snapshot`. -/
+theorem maven_elems_closed (a : MavenCV.Ast) (n : Nat) (ns : List Nat) (hn : a.nums = n :: ns) (hv : a.valid = true) :
+    (embedMaven a).ext = .maven (numE 0 n :: tailElems ns a) := by
+  have := embed_elems a n ns hn hv
+  show Ext.maven (elemsOf a) = _
+  rw [elemsOf, this]
+
 /-! ## Non-vacuity: every hypothesis set has concrete, non-trivially ordered inhabitants -/
 
 example : NuGet.Ast.valid { major := 1, minor := 0, patch := 0, revision := 2, pre := [.alnum [66, 101, 116, 97], .num 7] } = true ∧
@@ -300,5 +350,71 @@ example : (PepWF pvA ∧ Pep.NoPrePost0 pvA ∧ Pep.NoLocalPostDev pvA ∧ Pep.N
     Pep440.compare pvA pvB = .lt := by
   refine ⟨⟨⟨by decide, by decide⟩, by decide, by decide, by decide, by decide⟩,
     ⟨⟨by decide, by decide⟩, by decide, by decide, by decide, by decide⟩, by decide⟩
+
+
+/-- `1.0-rc-1`, `1.0`, `3.0.0-beta`, `3.0.0-SNAPSHOT`, `2.0.1-a1` (= `2.0.1-alpha-1`), `1.2-foo-3`. -/
+def mvRc1 : MavenCV.Ast := { nums := [1, 0], qual := some (.dash, MavenCV.wRc), qnum := some (.dash, 1) }
+def mv10 : MavenCV.Ast := { nums := [1, 0] }
+def mvBeta : MavenCV.Ast := { nums := [3, 0, 0], qual := some (.dash, MavenCV.wBeta) }
+def mvSnap : MavenCV.Ast := { nums := [3, 0, 0], snapshot := true }
+def mvA1 : MavenCV.Ast := { nums := [2, 0, 1], qual := some (.dash, [97]), qnum := some (.trans, 1) }
+def mvAlpha1 : MavenCV.Ast := { nums := [2, 0, 1], qual := some (.dash, MavenCV.wAlpha), qnum := some (.dash, 1) }
+def mvFoo : MavenCV.Ast := { nums := [1, 2], qual := some (.dash, [102, 111, 111]), qnum := some (.dash, 3) }
+def mvSp : MavenCV.Ast := { nums := [1, 2], qual := some (.dash, MavenCV.wSp) }
+
+example : MavenCV.render mvRc1 = "1.0-rc-1".toUTF8.toList ∧ MavenCV.render mv10 = "1.0".toUTF8.toList ∧
+    MavenCV.render mvBeta = "3.0.0-beta".toUTF8.toList ∧ MavenCV.render mvSnap = "3.0.0-SNAPSHOT".toUTF8.toList ∧
+    MavenCV.render mvA1 = "2.0.1-a1".toUTF8.toList ∧ MavenCV.render mvFoo = "1.2-foo-3".toUTF8.toList := by
+  decide +kernel
+
+theorem mvRc1_dom : MavenDomain mvRc1 := by decide
+theorem mv10_dom : MavenDomain mv10 := by decide
+theorem mvBeta_dom : MavenDomain mvBeta := by decide
+theorem mvSnap_dom : MavenDomain mvSnap := by decide
+theorem mvA1_dom : MavenDomain mvA1 := by decide
+theorem mvAlpha1_dom : MavenDomain mvAlpha1 := by decide
+theorem mvFoo_dom : MavenDomain mvFoo := by decide
+theorem mvSp_dom : MavenDomain mvSp := by decide
+
+/-- `maven_agree_partial` on `1.0-rc-1 < 1.0`, `3.0.0-beta < 3.0.0-SNAPSHOT`, `2.0.1-a1 = 2.0.1-alpha-1`,
+`1.2-sp < 1.2-foo-3` (unknown qualifier after `sp`): the reference says so, hence the library. -/
+example : vcompare (embedMaven mvRc1) (embedMaven mv10) = .ok (-1) ∧
+    vcompare (embedMaven mvBeta) (embedMaven mvSnap) = .ok (-1) ∧
+    vcompare (embedMaven mvA1) (embedMaven mvAlpha1) = .ok 0 ∧
+    vcompare (embedMaven mvSp) (embedMaven mvFoo) = .ok (-1) := by
+  refine ⟨(maven_agree_partial _ _ mvRc1_dom mv10_dom).trans ?_, (maven_agree_partial _ _ mvBeta_dom mvSnap_dom).trans ?_,
+    (maven_agree_partial _ _ mvA1_dom mvAlpha1_dom).trans ?_, (maven_agree_partial _ _ mvSp_dom mvFoo_dom).trans ?_⟩ <;>
+  decide +kernel
+
+/-- `maven_agree_keyorder` on the same pair; the strings themselves compare the same way in the model
+of `System.Compare`, and `embedMaven` is what `System.Parse` yields on them. -/
+example : MavenCV.compare mvRc1 mv10 = mavenLex (elemsOf mvRc1) (elemsOf mv10) :=
+  (maven_agree_keyorder _ _ mvRc1_dom mv10_dom (by decide) (by decide)).1
+
+example : compareStr .maven "1.0-rc-1".toUTF8.toList "1.0".toUTF8.toList = .ok (-1) ∧
+    compareStr .maven "3.0.0-beta".toUTF8.toList "3.0.0-SNAPSHOT".toUTF8.toList = .ok (-1) ∧
+    parse .maven (MavenCV.render mvRc1) = .ok (embedMaven mvRc1) ∧
+    parse .maven (MavenCV.render mvSnap) = .ok (embedMaven mvSnap) := by
+  decide +kernel
+
+/-- `maven_elems_closed`: `3.0.0-beta` is `3`, `-beta`. -/
+example : (embedMaven mvBeta).ext = .maven [numE 0 3, ⟨45, MavenCV.wBeta, 0⟩] :=
+  (maven_elems_closed mvBeta 3 [0, 0] rfl (by decide)).trans (by decide +kernel)
+
+/-- `4.1.0.Beta1` (C01's `ZeroDotQual` witness) is in `MavenDomain`, not in the key-order domain;
+`maven_agree_partial` on the intransitive triple of C01: `4.1 < 4.1-jre < 4.1.0.Beta1 < 4.1`, on both sides. -/
+def mvBeta1 : MavenCV.Ast := { nums := [4, 1, 0], qual := some (.dot, MavenCV.wBeta), qnum := some (.trans, 1) }
+def mv41 : MavenCV.Ast := { nums := [4, 1] }
+def mvJre : MavenCV.Ast := { nums := [4, 1], qual := some (.dash, [106, 114, 101]) }
+theorem mvBeta1_dom : MavenDomain mvBeta1 ∧ ¬ Maven.NoZeroDotQual mvBeta1 := by decide
+
+example : MavenCV.render mvBeta1 = "4.1.0.beta1".toUTF8.toList := by decide +kernel
+
+example : vcompare (embedMaven mv41) (embedMaven mvJre) = .ok (-1) ∧
+    vcompare (embedMaven mvJre) (embedMaven mvBeta1) = .ok (-1) ∧
+    vcompare (embedMaven mvBeta1) (embedMaven mv41) = .ok (-1) := by
+  refine ⟨(maven_agree_partial _ _ (by decide) (by decide)).trans ?_,
+    (maven_agree_partial _ _ (by decide) mvBeta1_dom.1).trans ?_,
+    (maven_agree_partial _ _ mvBeta1_dom.1 (by decide)).trans ?_⟩ <;> decide +kernel
 
 end DepsDev.Props.C02
